@@ -263,7 +263,7 @@ pub fn run(ctx: &Ctx, model: &mut Model, rep: &mut Report) {
         }
     }
     let known_open = open_ids.contains(&"D12".to_string()) || open_ids.contains(&"D22".to_string());
-    let n = if ctx.thorough { 5000 } else { 400 };
+    let n = if ctx.thorough { 5000 } else { 1200 };
     for i in 0..n {
         let mut r = Rng::for_case(ctx.seed ^ 0xC05, i as u64);
         // every 8th library carries the features of the known findings (attribution stream)
